@@ -63,6 +63,10 @@ CLAIMS = {
    technique="sibling cross-check of the two registry-miss branches with argument-origin identity, phi/edge-fact analysis of the consumed length, dominance of the drop decision by the consumption, registry literal table lifted from the AST",
    text="Decides that unknown elements are handled identically in both sibling branches (strict => error; else nameless OctetArray substitute with the looked-up id/enterprise and the WIRE length), that data-record bytes are consumed by one length selection (prefix vs fixed) before and independently of the drop decision, that the drop criterion is 'drop mode && nameless', that no decodable registry entry is nameless, and that keep mode copies exactly the bytes given. Value equality across modes is implied by identical consumption, not observed.",
    note="Trusted: registry lookup errors iff unregistered.", ref="DESIGN.md §5 C17"),
+ "C15": dict(
+   technique="table lifting from the AST (encoder/decoder switch cases -> primitive, width, byte order, conversion chain, accessor; InfoElementLength; 524 registry literals) compared with a reference table transcribed from RFC 7011 s6.1/s7; prefix-scheme extraction from five sites on SSA with normalised comparisons; length-accounting shape rules",
+   text="Decides agreement of the codec's tables: each supported type's encoder case and decoder case independently match the RFC's width/byte order/sign/float/boolean/raw encoding; InfoElementLength and every registry literal agree with that width; getters/constructors match the concrete element types; unsupported labels error on both sides; all five sites of the variable-length prefix implement 255/+1/0xFF+2/65535; one GetLength() is used for sizing, guarding, advancing and accumulating record lengths. This is the structural reason a round trip can work for every value; per-value equality is not enumerated.",
+   note="Trusted: encoding/binary, math.Float*bits; the transcription of the RFC tables in checker/layout.go.", ref="DESIGN.md §5 C15"),
 }
 NOT_YET = "rules designed (DESIGN.md §5) but not built yet in this round; no claim is made until the check exists"
 props=[json.loads(l) for l in open('/verif/properties.jsonl')]
